@@ -378,7 +378,7 @@ def task_process_message(cls, registered):
         try:
             I.call(IBound(f, r), [msg, sender], {})
         except IRaise as e:
-            run.fail("C04,C05,C12,C18|process_message[%s]/raises-nothing" % tag,
+            run.fail("C04,C05,C12,C18,C01|process_message[%s]/raises-nothing" % tag,
                      "process_message raised %s" % (e,))
             return
         run.cover("cover[%s]/post" % tag)
@@ -397,7 +397,7 @@ def task_process_message(cls, registered):
         if fd and not fc:
             run.oblige("C12,C04|process_message[%s]/a-device-kind-message-sent-by-a-client-reaches-no-other-client" % tag,
                        implies(st0.is_client(sender.term, pos_c), forall(e, z3.Select(I.ghost["cli_cnt"], e) == 0)))
-        run.oblige("C05,C04,C18|process_message[%s]/clients-exactly-once-by-policy" % tag,
+        run.oblige("C05,C04,C18,C01|process_message[%s]/clients-exactly-once-by-policy" % tag,
                    forall(e, z3.Select(I.ghost["cli_cnt"], e) == ite(cspec, 1, 0)))
         if payload:
             run.oblige("C08,C05|process_message[%s]/clients-that-did-not-enable-BLOBs-receive-no-payload" % tag,
